@@ -83,7 +83,11 @@ pub struct LsimScheduler {
     seen_epoch: u64,
     hash: u64,
     last: usize,
+    age: HashMap<usize, u32>,
+    low_mark: u64,
 }
+
+const STARVATION_BOUND: u32 = 4000;
 
 impl LsimScheduler {
     pub fn new(spec: SchedSpec) -> LsimScheduler {
@@ -114,6 +118,8 @@ impl LsimScheduler {
             seen_epoch: PROGRESS_EPOCH.load(Ordering::SeqCst),
             hash: 0xcbf29ce484222325,
             last: usize::MAX,
+            age: HashMap::new(),
+            low_mark: 0,
         }
     }
 }
@@ -212,6 +218,37 @@ impl Scheduler for LsimScheduler {
                 }
             }
         };
+        // Fairness bound (all strategies): a thread that has been runnable but passed over for a
+        // long time runs next. Strict priorities would otherwise let a thread that busy-waits for
+        // another one (DiskReadScheduler::get_or_load polls `load_scheduled` in a loop) starve it
+        // forever, which no real scheduler does.
+        let mut choice = choice;
+        if ids.len() > 1 {
+            let mut oldest: Option<(u32, usize)> = None;
+            for id in &ids {
+                if *id == timer {
+                    continue;
+                }
+                let a = self.age.entry(*id).or_insert(0);
+                if *id == choice {
+                    *a = 0;
+                } else {
+                    *a += 1;
+                    if *a > STARVATION_BOUND && oldest.map(|o| *a > o.0).unwrap_or(true) {
+                        oldest = Some((*a, *id));
+                    }
+                }
+            }
+            if let Some((_, id)) = oldest {
+                choice = id;
+                self.age.insert(id, 0);
+                if self.spec.kind == 2 {
+                    // the starving thread overtakes everybody (a PCT priority change)
+                    self.low_mark = self.low_mark.saturating_sub(1);
+                    self.prio.insert(id, 0);
+                }
+            }
+        }
         if std::env::var_os("LSIM_TRACE_SCHED").is_some() {
             eprintln!("sched: runnable={:?} cur={} yielding={} -> {}", runnable.iter().map(|t| usize::from(t.id())).collect::<Vec<_>>(), cur as isize, is_yielding, choice);
         }
